@@ -8,7 +8,7 @@ using namespace vh;
 static const uint32_t LIMIT_BITS = 0x207fffff, HARD_BITS = 0x1f7fffff;
 struct HP : BtcChainParamsRegTest {
   bool mind = false;
-  uint32_t fut = 1000;
+  uint32_t fut = 601;   // one time step: a header dated EXACTLY at the future limit occurs (and is allowed), one step later is refused
   bool getAllowMinDifficultyBlocks() const noexcept override { return mind; }
   uint32_t maxFutureBlockTime() const noexcept override { return fut; }
 };
